@@ -273,6 +273,13 @@ func c25(r *Run) {
 	r.rule("C25.R3", "K4", "EMap fields under mu", 8)
 	r.rule("C25.R4", "K5", "ExpiryHeap.Remove uses the entry's maintained index", 2)
 
+	// R4 (producer side): Remove deletes the position recorded in the entry, so Add has to record the position the
+	// entry is pushed at (Swap only repairs entries that move)
+	if ea := r.fn(w, "C25.R4", "(*"+H+"/internal/eheap.ExpiryHeap).Add"); ea != nil {
+		ix := findEffects(ea, "store alloc(complit).Index = (*internal/heap.Heap).Len(p0.minHeap)")
+		ps := findEffects(ea, "call (*internal/heap.Heap).Push(p0.minHeap, alloc(complit))")
+		r.check(len(ix) == 1 && len(ps) == 1 && dominatesI(ix[0].Ins, ps[0].Ins) && len(ix[0].Conds()) == 0, "C25.R4", "ExpiryHeap.Add:entry-records-its-position", w.rel(ea.Pos()), "", "ExpiryHeap.Add does not record the position the entry is pushed at (Index = heap length before the push): Remove of an entry that never moved deletes position 0, the minimum, instead")
+	}
 	ad := r.fn(w, "C25.R1", EM+"add")
 	if ad != nil {
 		sa := findEffects(ad, "call (*ago/utils/set.Set).Add(p0.seen, [p1])")
